@@ -124,7 +124,13 @@ func (i Interval) Length() float64 {
 	if l > 0 {
 		return l
 	}
-	return -1
+	// The sum rounded to zero. Only the empty interval has a negative length;
+	// an inverted interval whose endpoints are within rounding error of
+	// (Pi, -Pi) is a very short, non-empty arc.
+	if i.IsEmpty() {
+		return -1
+	}
+	return 0
 }
 
 // Assumes p ∈ (-π,π].
